@@ -132,6 +132,30 @@ func judgeC01(c *core.Ctx, id string, h *wl.History) {
 	for _, v := range viols {
 		c.Violation("C01:"+v.Key, id, v.What+" ["+h.Cfg.String()+"]", wl.Summary(h, 400))
 	}
+	// second oracle (independent implementation): linearizability against a FIFO-queue model, small histories only
+	nw := 0
+	for w := range h.Writes {
+		nw += len(h.Writes[w])
+	}
+	if nw <= 40 && h.Cfg.Writers <= 3 && len(h.Ops) <= 80 && h.Quiesced {
+		verdict, ops, witness := wl.PorcupineC01(h, recs, 2*time.Second)
+		c.Count("porcupine_histories", 1)
+		c.Count("porcupine_operations", int64(ops))
+		switch verdict {
+		case "illegal":
+			c.Count("porcupine_illegal", 1)
+			if len(viols) == 0 {
+				c.Violation("C01:history-not-linearizable-as-fifo", id, "porcupine: the recorded history is not linearizable against the FIFO model (write appends, each transport call drains a prefix) although the offline oracle found nothing ["+h.Cfg.String()+"]",
+					map[string]interface{}{"history": witness, "summary": wl.Summary(h, 200)})
+			}
+		case "unknown":
+			c.Count("porcupine_timeouts", 1)
+		default:
+			if len(viols) > 0 {
+				c.Count("porcupine_ok_but_offline_oracle_fired", 1)
+			}
+		}
+	}
 }
 
 func wireOrder(recs []wl.WireRec) string {
